@@ -637,8 +637,34 @@ fn alloc_case(kind: &str, entry: u32, cfg: u32, cap: usize, buf: &[u8], _tmp: &m
     write!(out, "{} allocs={}", cls, after - before).unwrap();
 }
 
+/// a call that does not return is a violation too ("fails to terminate"): a watchdog thread ends the
+/// process with exit code 124 and names the case on stderr when one case runs longer than the limit
+static WATCH_SEQ: std::sync::atomic::AtomicU64 = std::sync::atomic::AtomicU64::new(0);
+static WATCH_ID: std::sync::Mutex<String> = std::sync::Mutex::new(String::new());
+
+fn start_watchdog() {
+    let limit: u64 = std::env::var("HV_CASE_TIMEOUT").ok().and_then(|s| s.parse().ok()).unwrap_or(20);
+    std::thread::spawn(move || {
+        let mut last = u64::MAX;
+        let mut since = std::time::Instant::now();
+        loop {
+            std::thread::sleep(std::time::Duration::from_millis(250));
+            let cur = WATCH_SEQ.load(Ordering::Relaxed);
+            if cur != last {
+                last = cur;
+                since = std::time::Instant::now();
+            } else if cur % 2 == 1 && since.elapsed().as_secs() >= limit {
+                let id = WATCH_ID.lock().map(|g| g.clone()).unwrap_or_default();
+                eprintln!("HV-TIMEOUT {} did not return within {} s", id, limit);
+                std::process::exit(124);
+            }
+        }
+    });
+}
+
 fn run_file(path: &str, mode: Mode) {
     std::panic::set_hook(Box::new(|_| {}));
+    start_watchdog();
     let f = std::fs::File::open(path).expect("cases file");
     let stdout = std::io::stdout();
     let mut w = BufWriter::new(stdout.lock());
@@ -648,6 +674,11 @@ fn run_file(path: &str, mode: Mode) {
             continue;
         }
         let id = line.split('\t').nth(1).unwrap_or("?").to_string();
+        if let Ok(mut g) = WATCH_ID.lock() {
+            g.clear();
+            g.push_str(&id);
+        }
+        WATCH_SEQ.fetch_add(1, Ordering::Relaxed);      // odd: a case is running
         let l2 = line.clone();
         let r = std::panic::catch_unwind(move || {
             let mut out = String::new();
@@ -667,10 +698,9 @@ fn run_file(path: &str, mode: Mode) {
                 writeln!(w, "{} XPANIC {}", id, msg.replace('\n', " ")).unwrap()
             }
         }
-        if mode == Mode::Guard {
-            // a later case may kill the process: nothing observed so far may be lost
-            w.flush().unwrap();
-        }
+        WATCH_SEQ.fetch_add(1, Ordering::Relaxed);      // even: between cases
+        // a later case may kill the process (guard page, watchdog): nothing observed so far may be lost
+        w.flush().unwrap();
     }
     w.flush().unwrap();
 }
